@@ -383,6 +383,13 @@ def _add(module: Module, val: ModuleAttr) -> ModuleAttr:
         if ctr is not type_ctr:
             ctr.pop(val.name, None)
 
+    # The prior holder of this name, if any, leaves the Module - unless we (also) hold it under another name.
+    # From here on it is no more ours than any other stray object. (Connections to it are then refused as such.)
+    prior = module.namespace.get(val.name, None)
+    if prior is not None and prior is not val:
+        if not any(held is prior for name, held in module.namespace.items() if name != val.name):
+            prior._parent_module = None
+
     # Add it to the module namespace, and the type-specific container
     type_ctr[val.name] = val
     module.namespace[val.name] = val
